@@ -125,7 +125,8 @@ variable {c : E2ECfg} {g : GlobalLic} {tree : ETree} {files : List EFile}
 /-- The verdict of the composed model is clauses (a)–(d) read on the tree: covered files are those
     of C03, what is attributed to them is what C04's rules say for the chain of REUSE.toml tables
     found on their ancestor directories and their own source, licence texts are the files below
-    LICENSES/.  Full statement (without `plainNames`): false for the recorded ambiguous
+    LICENSES/ — regular files and symbolic links that resolve to regular files, through real and linked
+    directories (`C01_e2e_linked_text`, `C01_e2e_provided`).  Full statement (without `plainNames`): false for the recorded ambiguous
     LICENSES/ names. -/
 theorem C01_e2e_verdict_partial (ht : noRefInTable tbl = true) (hg : globalOf c tree = some g)
     (hp : plainNames tbl (licFilesOf tree) = true)
@@ -293,23 +294,103 @@ theorem C01_e2e_level_none {tomls : List (List String)} {p : List String} {i : N
 theorem C01_e2e_licences {cs : ETree} (hd : elookup tree "LICENSES" = some (.dir cs)) (q : Text) :
     q ∈ licFilesOf tree ↔ ∃ rel, LicIn cs rel ∧ q = relText ("LICENSES" :: rel) := mem_licFilesOf hd q
 
+/-- `_find_licenses` on a tree with symbolic links, said outright.  With LICENSES a directory of the root
+    or a symbolic link that resolves to one (entries `cs`), the paths the tool takes for licence texts are
+    exactly `LICENSES/rel` for the `rel` such that: following `rel` from `cs` through directories and
+    symbolic links that resolve to directories leads to an entry that is a regular file *or a symbolic link
+    that resolves to a regular file*, and no component of `rel` is hidden (`Spec.LinkedText`).  The text is
+    named by the path of the link, not of its target; a dangling link, a link whose name or one of whose
+    directories' names begins with a dot, an entry behind a link to a regular file: none of them is one.
+    (The name filter `*.license` is applied to these paths afterwards: `isLicFile` in `Provides`, see
+    `C01_e2e_provided`.) -/
+theorem C01_e2e_linked_text {l : ENode} {cs : ETree} (hd : elookup tree "LICENSES" = some l)
+    (hl : DirOrLinkToDir l cs) (q : Text) :
+    q ∈ licFilesOf tree ↔ ∃ rel, LinkedText cs rel ∧ q = relText ("LICENSES" :: rel) := by
+  rw [mem_licFilesOf' hd hl]
+  constructor
+  · rintro ⟨rel, h, e⟩; exact ⟨rel, (licIn_iff_linkedText rel cs).mp h, e⟩
+  · rintro ⟨rel, h, e⟩; exact ⟨rel, (licIn_iff_linkedText rel cs).mpr h, e⟩
+
+/-- ... and there is no licence text at all when the root has no LICENSES entry, or it is a regular file,
+    a dangling link or a link to a regular file. -/
+theorem C01_e2e_no_licences_dir (h : ∀ l, elookup tree "LICENSES" = some l → ∀ cs, ¬ DirOrLinkToDir l cs) :
+    licFilesOf tree = [] := licFilesOf_nil h
+
+/-- "The text of `k` is provided by the tree" (`ProvidedT`, the notion `C01_e2e_missing_partial`,
+    `C01_e2e_unused_partial` and clauses (b), (c) of `C01_e2e_verdict_partial` are stated with), read on a
+    tree with symbolic links: some entry below LICENSES/ that is a regular file or a link resolving to one,
+    reached through real or linked non-hidden directories, whose own name is not hidden, does not end in
+    `.license` and carries `k`. -/
+theorem C01_e2e_provided {l : ENode} {cs : ETree} (hd : elookup tree "LICENSES" = some l)
+    (hl : DirOrLinkToDir l cs) (k : Text) :
+    ProvidedT tbl tree k ↔ ∃ rel, LinkedText cs rel ∧ isLicFile (relText ("LICENSES" :: rel)) = true ∧
+      (carried tbl (pathName (relText ("LICENSES" :: rel)))).1 = k := by
+  unfold ProvidedT Provided Provides
+  constructor
+  · rintro ⟨path, hm, hf, hk⟩
+    obtain ⟨rel, hrel, rfl⟩ := (C01_e2e_linked_text hd hl path).mp hm
+    exact ⟨rel, hrel, hf, hk⟩
+  · rintro ⟨rel, hrel, hf, hk⟩
+    exact ⟨_, (C01_e2e_linked_text hd hl _).mpr ⟨rel, hrel, rfl⟩, hf, hk⟩
+
 /-- the hypothesis `NoEmptyNotice` is implied by a check of the model's own output -/
 theorem C01_e2e_hyp (h : noEmptyNoticeB (filesOf c g tree) = true) : NoEmptyNotice c g tree :=
   noEmptyNotice_of_B h
 
 -- Non-vacuity: the hypotheses are satisfiable — a project holding only a dangling symlink is compliant.
-example (c : E2ECfg) : globalOf c [("l", .symlink)] = some .none_ := by
+example (c : E2ECfg) : globalOf c [("l", .symlink .dangling)] = some .none_ := by
   simp [globalOf, hasDep5, subtree, elookup, tomlFiles, iterFiles, toNodes, ENode.toNode, walkList, walkNode]
-example : plainNames spdxTable (licFilesOf [("l", .symlink)]) = true := by decide
-example (c : E2ECfg) : NoEmptyNotice c .none_ [("l", .symlink)] := by
+example : plainNames spdxTable (licFilesOf [("l", .symlink .dangling)]) = true := by decide
+example (c : E2ECfg) : NoEmptyNotice c .none_ [("l", .symlink .dangling)] := by
   intro p it hp
   cases hp with
   | file hm _ => simp [toNodes, ENode.toNode] at hm
   | dir hm _ _ => simp [toNodes, ENode.toNode] at hm
-example (c : E2ECfg) : ∃ r, lintE2E spdxTable c [("l", .symlink)] = .ok [] r ∧ r.isCompliant = true :=
+example (c : E2ECfg) : ∃ r, lintE2E spdxTable c [("l", .symlink .dangling)] = .ok [] r ∧ r.isCompliant = true :=
   ⟨generateOn { lmap := spdxTable } [], by
     simp [lintE2E, globalOf, hasDep5, subtree, elookup, tomlFiles, iterFiles, toNodes, ENode.toNode, walkList,
-      walkNode, projectOf, filesOf, coveredFiles, licFilesOf, generate, findLicenses, findLoop], by decide⟩
+      walkNode, projectOf, filesOf, coveredFiles, licFilesOf, licPathsOf, generate, findLicenses, findLoop], by decide⟩
+-- ... with symbolic links below LICENSES/: a link to a regular file (named by the link), a link to a directory
+-- (descended into, links inside it followed in turn), a dangling link, a hidden link, a link to a file used as a directory
+def linkDemoShared : ETree :=
+  [("0BSD.txt", .file [48]), ("Zlib.txt", .symlink (.file [90])), ("gone.txt", .symlink .dangling)]
+def linkDemoLics : ETree := [
+  ("MIT.txt", .symlink (.file [77])),
+  ("shared", .symlink (.dir linkDemoShared)),
+  ("GPL-2.0-only.txt", .symlink .dangling),
+  (".Apache-2.0.txt", .symlink (.file [65])),
+  (".pool", .symlink (.dir [("ISC.txt", .file [73])])),
+  ("README", .symlink (.file [82])),
+  ("README.txt", .dir [])]
+def linkDemo : ETree := [
+  ("a.py", .file [35]),
+  ("LICENSES", .dir linkDemoLics)]
+
+example : licFilesOf linkDemo = ["LICENSES/MIT.txt".toList, "LICENSES/shared/0BSD.txt".toList, "LICENSES/shared/Zlib.txt".toList,
+    "LICENSES/README".toList] := by
+  decide
+example : LinkedText [("MIT.txt", .symlink (.file [77])), ("shared", .symlink (.dir [("Zlib.txt", .symlink (.file [90]))])),
+    ("GPL-2.0-only.txt", .symlink .dangling)] ["shared", "Zlib.txt"] :=
+  ⟨_, .step (sub := [("Zlib.txt", .symlink (.file [90]))]) (List.mem_cons_of_mem _ (List.mem_cons_self ..)) (.inr rfl)
+    (.last (List.mem_cons_self ..)), .inr ⟨_, rfl⟩, by decide⟩
+example : ¬ LinkedText [("MIT.txt", .symlink (.file [77])), ("GPL-2.0-only.txt", .symlink .dangling)] ["GPL-2.0-only.txt"] := by
+  rintro ⟨n, hat, hf, _⟩
+  cases hat with
+  | last hm =>
+    rcases List.mem_cons.mp hm with hm | hm
+    · exact absurd (show "GPL-2.0-only.txt" = "MIT.txt" from congrArg Prod.fst hm) (by decide)
+    · rcases List.mem_cons.mp hm with hm | hm
+      · cases hm
+        rcases hf with ⟨b, hb⟩ | ⟨b, hb⟩ <;> cases hb
+      · cases hm
+  | step _ _ h => cases h
+example : "LICENSES/MIT.txt".toList ∈ licFilesOf linkDemo :=
+  (C01_e2e_linked_text (tree := linkDemo) (l := .dir linkDemoLics) (by simp [elookup, linkDemo]) (.inl rfl) _).mpr
+    ⟨["MIT.txt"], ⟨_, .last (List.mem_cons_self ..), .inr ⟨_, rfl⟩, by decide⟩, by decide⟩
+example : ProvidedT spdxTable linkDemo "Zlib".toList :=
+  (C01_e2e_provided (tree := linkDemo) (l := .dir linkDemoLics) (by simp [elookup, linkDemo]) (.inl rfl) _).mpr
+    ⟨["shared", "Zlib.txt"], ⟨_, .step (sub := linkDemoShared) (List.mem_cons_of_mem _ (List.mem_cons_self ..)) (.inr rfl)
+      (.last (List.mem_cons_of_mem _ (List.mem_cons_self ..))), .inr ⟨_, rfl⟩, by decide⟩, by decide +kernel, by decide +kernel⟩
 -- ... and of the look-up statements: a file with a `.license` sibling in a well-formed directory.
 example : wfEntries [("a.py", .file [35]), ("a.py.license", .file [])] := by
   simp [wfEntries, wfNode]
